@@ -257,6 +257,66 @@ def run(ck):
                          "extension) - never by unpacking a split of the name")
     from .c08 import _file_naming
     _file_naming(ck, "C07.G10")
+    _unhashable_in_sets(ck, fns)
+    ck.clause("C07.G12", "the join-score denominators are positive (max(..., 1) floor): two segments that touch exactly do not "
+                         "divide by zero (as C14.1)")
+    from ..report import RuleView
+    from . import c14
+    c14.join_score(RuleView(ck, {"C14.1": "C07.G12"}))
+
+
+def _unhashable_in_sets(ck, fns):
+    """C07.G11: a set (or dict key set) is built only from hashable things: a repository class that defines __eq__ without
+    __hash__ is unhashable, and set(...) over a list that may hold its instances raises TypeError at run time"""
+    from ..types import Inst, ListOf
+    ctx = ck.ctx
+    p = ctx.p
+    ck.clause("C07.G11", "no set / dict is built from objects of a class that defines __eq__ without __hash__ (TypeError: unhashable)")
+
+    def unhashable(cls):
+        bad = []
+        for c in [cls] + p.all_subclasses(cls):
+            if c.module.is_test:
+                continue
+            own_eq = "__eq__" in c.methods
+            own_hash = "__hash__" in c.methods
+            deco = " ".join(ast.unparse(d) for d in c.node.decorator_list)
+            if "dataclass" in deco:
+                if "frozen=True" in deco or "unsafe_hash=True" in deco or "eq=False" in deco:
+                    continue
+                bad.append(c)          # eq=True (default) without frozen: __hash__ is set to None
+                continue
+            if own_eq and not own_hash:
+                bad.append(c)
+        return bad
+    n = 0
+    for f in fns:
+        for node in ast.walk(f.node):
+            arg = None
+            if isinstance(node, ast.Call) and isinstance(node.func, ast.Name) and node.func.id in ("set", "frozenset") and len(node.args) == 1:
+                arg = node.args[0]
+            elif isinstance(node, ast.SetComp):
+                arg = node.elt
+            if arg is None:
+                continue
+            n += 1
+            try:
+                t = ctx.t.type_of(f, arg)
+            except Exception:
+                continue
+            elem = t.elem if isinstance(t, ListOf) else t
+            if isinstance(node, ast.SetComp):
+                elem = t
+            if isinstance(elem, Inst):
+                bad = unhashable(elem.cls)
+                if bad:
+                    ck.violation("C07.G11", short(f) + ":set", where(f, node),
+                                 f"a set is built from `{ast.unparse(arg)[:60]}`, whose elements may be instances of "
+                                 f"{', '.join(c.name for c in bad[:3])} - a class with __eq__ but no __hash__ (unhashable): the "
+                                 f"run aborts with TypeError as soon as such an element occurs",
+                                 found=ast.unparse(node)[:120], required="a list membership test, or a hashable key")
+    ck.ok("C07.G11", "set-constructions", "src/", f"{n} set construction(s) on the run path, none over an unhashable repository class") \
+        if not any(o.rule == "C07.G11" and o.status == "VIOLATION" for o in ck.obligations) else None
 
 
 def _strip_iter(t: Term) -> Term:
